@@ -18,10 +18,16 @@ from .c01 import replay_program
 PROP = 'C04'
 
 
-def history_script(prog, mci, clients, history):
-    lines = scripts.preamble(prog, clients=clients) + ['final']
+def history_script(prog, mci, clients, history, final_at=0):
+    """`final_at`: how many operations of the history run before FinalConstruct() (a claim
+    during assembly is a claim)."""
+    lines = scripts.preamble(prog, clients=clients)
     port = mci['port']
-    for op in history:
+    for pos, op in enumerate(list(history) + [None]):
+        if pos == min(final_at, len(history)):
+            lines.append('final')
+        if op is None:
+            break
         kind = op[0]
         if kind == 'claim':
             _k, client, idx = op
@@ -45,7 +51,7 @@ def judge_history(log, mci, history):
     counts = {'out_events_judged': 0, 'in_events_judged': 0, 'unspecified_multi_grant': 0,
               'deliveries_to_holder': 0, 'deliveries_to_nobody': 0}
     granted = []          # clients in grant order (a set with memory)
-    tainted = False
+    displaced = set()     # holders after whose grant another client was granted the claim
     # split the log into one window per history operation (each op = exactly one `call`)
     wins = []
     cur = None
@@ -70,9 +76,9 @@ def judge_history(log, mci, history):
             wrong_event = [a['d']['event'] for a in arrivals if a['d']['event'] != op[1]]
             if wrong_event:
                 viols.append(('out-event-delivered-as-other-event', dict(where, got=wrong_event)))
-            if tainted:
-                # the component granted a claim while another client held one: the statement
-                # presupposes one holder - judged leniently until everybody has released
+            if len(granted) > 1:
+                # the component granted a claim while another client held one: 'the one' of
+                # the statement is not unique - judged leniently while several hold it
                 counts['unspecified_multi_grant'] += 1
                 if len(got) > 1 or any(g not in granted for g in got):
                     viols.append(('out-event-delivered-outside-granted-set',
@@ -80,9 +86,13 @@ def judge_history(log, mci, history):
             elif len(granted) == 1:
                 if got == [granted[0]]:
                     counts['deliveries_to_holder'] += 1
+                    if granted[0] in displaced:
+                        counts['deliveries_to_displaced_holder'] = \
+                            counts.get('deliveries_to_displaced_holder', 0) + 1
                 elif not got:
                     viols.append(('out-event-lost-although-claim-held',
                                   dict(where, holder=granted[0],
+                                       holder_was_displaced=granted[0] in displaced,
                                        last_ops=[list(o) for o in history[max(0, idx - 3):idx]])))
                 elif len(got) > 1:
                     viols.append(('out-event-delivered-to-several-clients',
@@ -120,14 +130,13 @@ def judge_history(log, mci, history):
             if idxr == mci['grant']:
                 if client in granted:
                     granted.remove(client)
-                if granted:
-                    tainted = True
+                displaced.update(granted)
+                displaced.discard(client)
                 granted.append(client)
         elif op[0] == 'release':
             if op[1] in granted:
                 granted.remove(op[1])
-            if not granted:
-                tainted = False
+            displaced.discard(op[1])
     return viols, counts
 
 
@@ -208,7 +217,12 @@ def eval_program(arg) -> dict:
         histories.append((clients, rand_history(rng, mci, clients, others, cx_outs,
                                                 rng.randint(1, 30)), False))
     for idx, (clients, history, exhaustive) in enumerate(histories):
-        script = history_script(prog, mci, clients, history)
+        # every third random history starts before the shell is finally constructed
+        final_at = 0 if (exhaustive or idx % 3) else rng.randint(0, len(history))
+        if final_at:
+            cnt['histories_starting_before_final_construction'] = \
+                cnt.get('histories_starting_before_final_construction', 0) + 1
+        script = history_script(prog, mci, clients, history, final_at)
         saved = dict(cnt)
         log = progrun.run_and_collect(prog, script, flavor, 'hist', out, case)
         if log is None:
@@ -219,8 +233,9 @@ def eval_program(arg) -> dict:
         cnt['histories'] = cnt.get('histories', 0) + 1
         cnt['histories_exhaustive_part'] = cnt.get('histories_exhaustive_part', 0) + (1 if exhaustive else 0)
         del saved
-        for mech, detail in viols[:1]:
-            detail.update(clients=clients, history=[list(o) for o in history][:40])
+        for mech, detail in viols[:3]:
+            detail.update(clients=clients, history=[list(o) for o in history][:40],
+                          operations_before_final_construction=final_at)
             out['violations'].append({'mechanism': mech, 'detail': detail, 'case': case,
                                       'files': {'script.txt': script},
                                       'klass': mech + (':non-holder-release' if _non_holder_release(detail) else '')})
